@@ -293,7 +293,7 @@ def build_reply(spec, req, sc, keys=None, model=None, rng=None):
         flags = spec.get("flags", "auto")
         if flags == "auto":
             flags = (1 if want_auth else 0) | (2 if want_priv else 0)
-        flags = int(flags)
+        flags = int(flags) | int(spec.get("flags_or", 0))
         scoped = ber.scoped_pdu(bytes.fromhex(spec.get("ctx_engine", eng.hex())), b"", p)
         pp = b""
         if want_priv:
@@ -315,6 +315,8 @@ def build_reply(spec, req, sc, keys=None, model=None, rng=None):
                 pp = bytes.fromhex(spec["privparams"])
         else:
             data = scoped
+        if "octet_data" in spec:
+            data = ber.tlv(4, bytes.fromhex(spec["octet_data"]))      # the encrypted shape, whatever the security level
         auth_field = b"\0" * 12 if want_auth else b""
         ver_n = 3 if ver == "same" else int(ver)
         usm = ber.usm_params(eng, boots, tm, user, auth_field, pp)
@@ -357,7 +359,8 @@ def run_scenario(g, sc, model=None, rng=None):
         if sc["version"] != "v3":
             return None
         if engine_hex not in keys_cache:
-            keys_cache[engine_hex] = V3Keys(sc["v3"], bytes.fromhex(engine_hex))
+            refused = any(k and k[1] == 0 and not k[2] for k in (sc["v3"].get("auth"), sc["v3"].get("priv")))   # an empty password
+            keys_cache[engine_hex] = None if refused else V3Keys(sc["v3"], bytes.fromhex(engine_hex))
         return keys_cache[engine_hex]
 
     def handler(n, data, addr):
